@@ -307,26 +307,29 @@ AllowedFrequent(c, s, out) ==
                                 \A j \in 1..Len(out) : ~better(cnt(ks[n]), cnt(keyOf(out[j])))
 
 \* ---------------------------------------------------------------- top (integer data)
-\* the values of f in group k sorted from the top (largest first, or smallest first with --min)
-TopVals(c, s, k) ==
-  LET b == Vals(s, c.g, k, c.f[1])  n == Len(b) IN
+\* the values of field f in group k sorted from the top (largest first, or smallest first with --min), at most c.n of them
+TopVals(c, s, k, f) ==
+  LET b == Vals(s, c.g, k, f)  n == Len(b) IN
   [m \in 1..n |-> SortedAt(b, IF HasOpt(c, "--min") THEN m - 1 ELSE n - m)]
-TopN(c, s, k) == LET t == TopVals(c, s, k) IN IF Len(t) < c.n THEN t ELSE SubSeq(t, 1, c.n)
+TopN(c, s, k, f) == LET t == TopVals(c, s, k, f) IN IF Len(t) < c.n THEN t ELSE SubSeq(t, 1, c.n)
 \* without -a: "only fields from -f, fields from -g, and the top-index field": per group, rows top_idx = 1..n
-\* ("How many records to print per category"); what is printed beyond the number of values a group has is not documented
+\* ("How many records to print per category") with <field>_top for every value field; what is printed beyond the number of
+\* values a group has is not documented
 ExpTop(c, s, go) ==
-  LET ks == GroupKeysBy(s, c.g, c.f, go)  idx == OptVal(c, "-o", "top_idx")  f == c.f[1] IN
+  LET ks == GroupKeysBy(s, c.g, c.f, go)  idx == OptVal(c, "-o", "top_idx") IN
   Flatten1([n \in 1..Len(ks) |->
-     LET t == TopN(c, s, ks[n]) IN
-     [m \in 1..c.n |-> IF m <= Len(t) THEN Rec(GPairs(c.g, ks[n]) \o <<Req(idx, ToString(m)), Req(f \o "_top", t[m])>>)
-                       ELSE OptRec(GPairs(c.g, ks[n]) \o <<Req(idx, ToString(m)), AnyV(f \o "_top")>>)]])
+     [m \in 1..c.n |->
+        LET pairs == [k \in 1..Len(c.f) |-> LET t == TopN(c, s, ks[n], c.f[k]) IN
+                                             IF m <= Len(t) THEN Req(c.f[k] \o "_top", t[m]) ELSE AnyV(c.f[k] \o "_top")]
+            gp == GPairs(c.g, ks[n]) \o <<Req(idx, ToString(m))>>
+        IN IF \E k \in 1..Len(pairs) : pairs[k][3] = "req" THEN Rec(gp \o pairs) ELSE OptRec(gp \o pairs)]])
 \* with -a: "the top records are emitted with the same fields as they appeared in the input"; which of several records with
 \* the same value is shown is not documented
 AllowedTopA(c, s, out) ==
   \E go \in GroupOrders :
   LET ks == GroupKeysBy(s, c.g, c.f, go)  f == c.f[1]
-      wantKeys == Flatten1([n \in 1..Len(ks) |-> [m \in 1..Len(TopN(c, s, ks[n])) |-> ks[n]]])
-      wantVals == Flatten1([n \in 1..Len(ks) |-> TopN(c, s, ks[n])])
+      wantKeys == Flatten1([n \in 1..Len(ks) |-> [m \in 1..Len(TopN(c, s, ks[n], f)) |-> ks[n]]])
+      wantVals == Flatten1([n \in 1..Len(ks) |-> TopN(c, s, ks[n], f)])
   IN /\ Len(out) = Len(wantVals)
      /\ \A j \in 1..Len(out) : HasAll(out[j], c.g) /\ Has(out[j], f) /\ GroupKey(out[j], c.g) = wantKeys[j] /\ Get(out[j], f) = wantVals[j]
      /\ SubBag(out, s)
@@ -500,7 +503,7 @@ Diag(c, s, out, exit) ==
   LET mm == IF exit # 0 THEN {} ELSE MismatchFields(Pattern(c, s), out) IN
   [why |-> IF exit # 0 THEN "exit" ELSE "output",
    mismatch |-> mm, nullonly |-> mm # {} /\ mm \subseteq {"out_null_count", "a_null_count", "b_null_count"},
-   gap |-> Gap(c, s), gapfirst |-> GapFirst(c, s), lead |-> c.v = "step" /\ HasLead(c), short |-> Short(c, s)]
+   gap |-> Gap(c, s), gapfirst |-> GapFirst(c, s), lead |-> c.v = "step" /\ HasLead(c), short |-> Short(c, s), multi |-> Len(c.f) > 1]
 
 \* ---------------------------------------------------------------- helpers for the laws (VerbsAggregateMC)
 \* a concrete output realising a pattern: every field written, "any" fields with the text w
